@@ -2,23 +2,23 @@ package main
 
 import (
 	"fmt"
+	"go/types"
 	"sort"
 	"strings"
 	"sync"
-	"go/types"
 
 	"golang.org/x/tools/go/ssa"
 )
 
 type Obligation struct {
-	Unit string
-	Name string
-	PC   []*Term
-	Goal *Term
-	Note string
-	Res  Result
-	SMT  string
-	Cut  bool // the path passed a cut point (loop invariant or callee contract): the model is not an input
+	Unit       string
+	Name       string
+	PC         []*Term
+	Goal       *Term
+	Note       string
+	Res        Result
+	SMT        string
+	Cut        bool // the path passed a cut point (loop invariant or callee contract): the model is not an input
 	Inputs     map[string]string
 	ReplaySrc  string
 	ReplayNote string
@@ -29,12 +29,12 @@ type Obj interface{}
 
 // MapObj models map[K]V with scalar keys: domain and value arrays (values flattened per component by name).
 type MapObj struct {
-	Dom   *Term            // Array K Bool
-	Vals  map[string]*Term // component -> Array K τ
-	KeyW  int
-	ValT  types.Type
-	T     *types.Map
-	Own   bool // every value ever stored is an object allocated by this call (engine-maintained: the map is local)
+	Dom  *Term            // Array K Bool
+	Vals map[string]*Term // component -> Array K τ
+	KeyW int
+	ValT types.Type
+	T    *types.Map
+	Own  bool // every value ever stored is an object allocated by this call (engine-maintained: the map is local)
 }
 
 type BufObj struct {
@@ -44,31 +44,31 @@ type BufObj struct {
 }
 
 type State struct {
-	pc     []*Term
-	cells  map[int]Val
-	heap   map[string]*Term
-	objs   map[int]Obj
-	text   map[string][]Piece // slice base (rendered) -> text view
-	nalloc int      // objects allocated since allocBase was set
-	allocBase *Term // allocation watermark: every object allocated so far has a reference <= allocBase + nalloc
-	allocated []*Term
-	spec   bool // executing a contract/spec function: no obligations, reads are total
-	assume bool // evaluating a contract as an assumption (BufIs binds)
-	globals map[string]int
-	qfActive map[string]bool // quantified-fact symbols that occur in the path condition
-	qdone  map[string]bool
-	bufOld   map[int][]Piece // text of a buffer at the entry of the unit (or, during a contracted call, before the call)
-	entryDone map[string]bool // entry-heap reference reads whose closure fact has been assumed
-	readLog  []traceRead // memory reads made by the code so far (instantiation sites for facts that appear later)
-	trace  *readTrace
-	cut    bool
-	onceDone map[string]bool
-	arrBack  map[string]SliceV // local byte arrays that were sliced: their contents live on the byte heap from then on
-	validCache map[string]bool // conditions proved valid under a prefix of pc
-	invalidAt  map[string]int  // conditions found not valid at this pc length
-	goal   bool   // evaluating a contract clause as a proof goal (Forall may be skolemised)
-	root   *State // the real state a contract evaluation was started from
-	noPre  bool // values created now are not known to be pre-existing memory (results of contracted calls)
+	pc         []*Term
+	cells      map[int]Val
+	heap       map[string]*Term
+	objs       map[int]Obj
+	text       map[string][]Piece // slice base (rendered) -> text view
+	nalloc     int                // objects allocated since allocBase was set
+	allocBase  *Term              // allocation watermark: every object allocated so far has a reference <= allocBase + nalloc
+	allocated  []*Term
+	spec       bool // executing a contract/spec function: no obligations, reads are total
+	assume     bool // evaluating a contract as an assumption (BufIs binds)
+	globals    map[string]int
+	qfActive   map[string]bool // quantified-fact symbols that occur in the path condition
+	qdone      map[string]bool
+	bufOld     map[int][]Piece // text of a buffer at the entry of the unit (or, during a contracted call, before the call)
+	entryDone  map[string]bool // entry-heap reference reads whose closure fact has been assumed
+	readLog    []traceRead     // memory reads made by the code so far (instantiation sites for facts that appear later)
+	trace      *readTrace
+	cut        bool
+	onceDone   map[string]bool
+	arrBack    map[string]SliceV // local byte arrays that were sliced: their contents live on the byte heap from then on
+	validCache map[string]bool   // conditions proved valid under a prefix of pc
+	invalidAt  map[string]int    // conditions found not valid at this pc length
+	goal       bool              // evaluating a contract clause as a proof goal (Forall may be skolemised)
+	root       *State            // the real state a contract evaluation was started from
+	noPre      bool              // values created now are not known to be pre-existing memory (results of contracted calls)
 }
 
 // QFact: a universally quantified formula that occurs in a contract is named by a Bool symbol qf (defined by
@@ -88,9 +88,9 @@ type QFact struct {
 var auxTerms sync.Map
 
 var (
-	allQFacts  []*QFact
-	looseQFacts []*QFact // named quantified facts with reads at indices not of the form shift + k
-	qfOfTerm   = map[*Term][]string{} // qf symbols mentioned by a term (cached)
+	allQFacts   []*QFact
+	looseQFacts []*QFact               // named quantified facts with reads at indices not of the form shift + k
+	qfOfTerm    = map[*Term][]string{} // qf symbols mentioned by a term (cached)
 )
 
 var qfMu sync.Mutex
@@ -540,7 +540,6 @@ func zeroVal(t types.Type) Val {
 	return NilV{T: t}
 }
 
-
 // heapFingerprint identifies the contents of every heap family (terms are immutable: pointer identity is enough).
 func (s *State) heapFingerprint() string {
 	names := make([]string, 0, len(s.heap))
@@ -551,6 +550,36 @@ func (s *State) heapFingerprint() string {
 	var sb strings.Builder
 	for _, n := range names {
 		fmt.Fprintf(&sb, "%s=%p;", n, s.heap[n])
+	}
+	// what else a specification function can read besides its arguments and the heap: ghost variables (package-level
+	// cells) and the contents of map objects
+	gn := make([]string, 0, len(s.globals))
+	for n := range s.globals {
+		gn = append(gn, n)
+	}
+	sort.Strings(gn)
+	for _, n := range gn {
+		sb.WriteString(n + "=" + renderVals([]Val{s.cells[s.globals[n]]}))
+	}
+	ids := make([]int, 0, len(s.objs))
+	for id, ob := range s.objs {
+		if _, ok := ob.(*MapObj); ok {
+			ids = append(ids, id)
+		}
+	}
+	sort.Ints(ids)
+	for _, id := range ids {
+		m := s.objs[id].(*MapObj)
+		fmt.Fprintf(&sb, "map%d=%p", id, m.Dom)
+		cs := make([]string, 0, len(m.Vals))
+		for c := range m.Vals {
+			cs = append(cs, c)
+		}
+		sort.Strings(cs)
+		for _, c := range cs {
+			fmt.Fprintf(&sb, ",%s=%p", c, m.Vals[c])
+		}
+		sb.WriteByte(';')
 	}
 	return sb.String()
 }
